@@ -259,6 +259,9 @@ func runPart(prop, tier string, seed uint64, p part, budgetS int) *partResult {
 				"SIM_WATCHDOG_S=" + strconv.Itoa(budgetS+600),
 				"GORACE=halt_on_error=1 exitcode=66",
 			}
+			if p.Race {
+				env = append(env, "SIM_RACE=1")
+			}
 			text, err := runCmd(scratch, env, bin, "-test.run", "^TestSim$", "-test.timeout", "0", "-test.cpu", "1")
 			st := &workerStats{}
 			b, rerr := os.ReadFile(out)
@@ -269,8 +272,9 @@ func runPart(prop, tier string, seed uint64, p part, budgetS int) *partResult {
 				}
 				st.RaceReport = text
 				if cur, e2 := os.ReadFile(out + ".current"); e2 == nil {
-					f := &found{Prop: prop, Class: prop + ".data-race", Msg: "data race reported by the race detector", Engine: p.Engine, BaseSeed: seed}
+					f := &found{}
 					json.Unmarshal(cur, f)
+					f.Prop, f.Class, f.Msg, f.Engine, f.BaseSeed = prop, prop+".data-race", "data race reported by the race detector (auxiliary pass on the uninstrumented tree)", p.Engine, seed
 					f.Race = &raceInfo{Report: trimReport(text)}
 					st.Found = f
 				}
@@ -351,7 +355,7 @@ func handleViolation(f *found, race bool) string {
 		os.WriteFile(in, b, 0o644)
 		hits := 0
 		for i := 0; i < 5; i++ {
-			text, err := engineMode(f.Engine, true, "replay", in, filepath.Join(scratch, "race-replay.json"), "GORACE=halt_on_error=1 exitcode=66")
+			text, err := engineMode(f.Engine, true, "replay", in, filepath.Join(scratch, "race-replay.json"), "GORACE=halt_on_error=1 exitcode=66", "SIM_RACE=1")
 			if err != nil && strings.Contains(text, "DATA RACE") {
 				hits++
 			}
@@ -596,7 +600,7 @@ func doReplay(path string) int {
 		hits := 0
 		var last string
 		for i := 0; i < 5; i++ {
-			text, err := engineMode(f.Engine, true, "replay", path, filepath.Join(scratch, "rr.json"), "GORACE=halt_on_error=1 exitcode=66")
+			text, err := engineMode(f.Engine, true, "replay", path, filepath.Join(scratch, "rr.json"), "GORACE=halt_on_error=1 exitcode=66", "SIM_RACE=1")
 			if err != nil && strings.Contains(text, "DATA RACE") {
 				hits++
 				last = trimReport(text)
